@@ -65,12 +65,15 @@ var keys = []keySpec{
 	{"GET", "/k/c", "", "/k/c"},
 	{"GET", "/k/b", "", "/k/b"},
 	{"GET", "/k/a", "", "/k/a"},
+	// an infix catch-all followed by a parameter: direct matches go through pooled sub-contexts
+	{"GET", "/in/*{c}/m/{p}", "", "/in/x/y/m/z"},
 	{"POST", "/a", "", "/a"},
 	{"GET", "/a/{p}/c", "", "/a/zz/c"},
 	{"GET", "{s}.example.org/a/b", "s1.example.org", "/a/b"},
 }
 
-const nTxn = 10
+const nTxn = 11
+const infixKey = 10
 
 type KOp struct {
 	Kind string `json:"kind"` // handle, update, delete
@@ -581,12 +584,21 @@ func genPlan(t *rapid.T) *Plan {
 			}
 			steps = append(steps, st)
 		}
+		if w == 0 {
+			// the infix route exists from the start in most plans
+			steps = append([]WStep{{Ops: []KOp{{Kind: "handle", Key: infixKey}}}}, steps...)
+		}
 		p.Writers = append(p.Writers, steps)
 	}
 	for r := 0; r < nr; r++ {
 		var steps []RStep
 		for i := 0; i < rlen; i++ {
-			steps = append(steps, RStep{Kind: gen.Pick(t, []string{"has", "route", "serve", "lookup", "reverse", "iter", "view", "version"}, "rkind"), Key: gen.IntR(t, 0, len(keys)-1, "rkey"), Yield: gen.Chance(t, 1, 5, "yield")})
+			st := RStep{Kind: gen.Pick(t, []string{"has", "route", "serve", "lookup", "reverse", "iter", "view", "version"}, "rkind"), Key: gen.IntR(t, 0, len(keys)-1, "rkey"), Yield: gen.Chance(t, 1, 5, "yield")}
+			if gen.Chance(t, 1, 4, "infix") {
+				// requests that go through pooled sub-contexts (infix catch-all), concurrently from several readers
+				st.Kind, st.Key = gen.Pick(t, []string{"serve", "lookup"}, "ikind"), infixKey
+			}
+			steps = append(steps, st)
 		}
 		p.Readers = append(p.Readers, steps)
 	}
